@@ -165,7 +165,7 @@ func runC18(rc *RC) {
 					c.err = chn.Leave(ctx, "bye")
 				}
 				c.done, c.ret, c.retStep = true, rc.S.Now(), rc.S.Steps
-				cancel()
+				simrt.Settle(cancel, "h:cancel")
 				if chn != nil {
 					j := chn.Joined()
 					c.joinedAfter = &j
